@@ -123,8 +123,24 @@ def _rect(c):
     if len(axes) == 2:
         la, lo = GeoGrid.coord_sequence_from_rect_grid(axes[0], axes[1])
         o["geoseq"] = [enc.ints(la), enc.ints(lo)]
+        # axes of DIFFERENT types: an integer-typed latitude axis with a longitude axis in quarters of a degree (and
+        # the other way round, and plain Python lists) - recorded in quarters; the product is that of the values
+        quarter = axes[1] + 0.25
+        mixed = []
+        for a0, a1 in ((axes[0].astype(np.int64), quarter), (axes[0].astype(np.int32), quarter.astype(np.float32)),
+                       ([int(v) for v in axes[0]], [float(v) for v in quarter]), (axes[0] + 0.5, axes[1].astype(np.int64))):
+            ml, mo = GeoGrid.coord_sequence_from_rect_grid(np.asarray(a0), np.asarray(a1))
+            gm = GeoGrid.RegularGrid(np.arange(3.0), (np.asarray(a0), np.asarray(a1)), silence_level=3)
+            mixed.append({"lat4": enc.ints(np.round(4 * np.asarray(ml, dtype=float))),
+                          "lon4": enc.ints(np.round(4 * np.asarray(mo, dtype=float))),
+                          "glat4": enc.ints(np.round(4 * np.asarray(gm.lat_sequence(), dtype=float))),
+                          "glon4": enc.ints(np.round(4 * np.asarray(gm.lon_sequence(), dtype=float))),
+                          "ax0": enc.ints(np.round(4 * np.asarray(a0, dtype=float))),
+                          "ax1": enc.ints(np.round(4 * np.asarray(a1, dtype=float)))})
+        o["mixed"] = mixed
     else:
         o["geoseq"] = []
+        o["mixed"] = []
     # the grid objects built from the same axes: node coordinates, sizes, longitude convention
     tseq = np.arange(3.0)
     rg = Grid.RegularGrid(tseq, [a.copy() for a in axes], silence_level=3)
